@@ -1260,6 +1260,175 @@ fn run_budget(r: &mut Report, seed: u64, case: u64, thorough: bool) {
     drop(col);
 }
 
+// ---------------------------------------------------------------------------
+// a flush over several signals while one of them cannot deliver
+// ---------------------------------------------------------------------------
+
+/// Two or three signals; ONE endpoint cannot acknowledge anything (refuses connections / rejects every
+/// attempt / never answers) for longer than the flush timeout `T`, which itself is well inside the retry
+/// budget of the failing batch. Events go to the failing signal and - "busy" - to the healthy ones, or the
+/// healthy ones stay idle. `blocking_flush(T)` returning false is simply correct. Whenever it returns TRUE,
+/// every event accepted before it, on every signal, must already be in an acknowledged request. Afterwards
+/// the outage ends and the usual delivery rule applies.
+fn run_outage_flush(r: &mut Report, seed: u64, case: u64, divisor: u32, request_timeout_ms: u64) {
+    r.eval();
+    let mut g = Rng::stream(seed, &[12, 4, case]);
+    // every (subset of size >= 2, failing member) pair: the failing signal is first / middle / last in the
+    // emitter's own order (logs, traces, metrics)
+    const PAIRS: [(u8, Signal); 9] = [
+        (3, Signal::Logs),
+        (3, Signal::Traces),
+        (5, Signal::Logs),
+        (5, Signal::Metrics),
+        (6, Signal::Traces),
+        (6, Signal::Metrics),
+        (7, Signal::Logs),
+        (7, Signal::Traces),
+        (7, Signal::Metrics),
+    ];
+    let (subset, failing) = PAIRS[(case % 9) as usize];
+    let busy = case / 9 % 2 == 1;
+    let mode = ["refuse", "reject", "stall"][((case / 18 + case % 9 + seed) % 3) as usize];
+    let transport = Transport::ALL[((case / 54 + case % 9 / 3 + case / 9 + seed) % 3) as usize];
+    let tname = transport.name();
+    let grpc = transport == Transport::Grpc;
+    let configured: Vec<Signal> = Signal::ALL.into_iter().filter(|s| subset & s.bit() != 0).collect();
+    let position = match configured.iter().position(|s| *s == failing).unwrap() {
+        0 => "first",
+        p if p + 1 == configured.len() => "last",
+        _ => "middle",
+    };
+    // the whole retry budget of one batch takes (700 + 2100 + 4900 + 7 x 10000) ms / divisor of back-off alone
+    let budget_ms = 77_700 / divisor as u64;
+    let t = match mode {
+        // every attempt additionally costs a request timeout
+        "stall" => Duration::from_millis(1_000.min(budget_ms / 3 + 3 * request_timeout_ms)),
+        _ => Duration::from_millis((budget_ms / 3).max(100)),
+    };
+    let every_attempt = match mode {
+        "reject" => Some(if grpc { Decision::GrpcStatus(14, GrpcForm::Trailers) } else { Decision::Status(503) }),
+        "stall" => Some(Decision::Stall),
+        _ => None,
+    };
+    let case_json = |detail: Json| {
+        json!({"seed": seed, "case": case, "kind": "outage-flush", "transport": tname, "subset": subset_name(subset), "outage_of": failing.name(), "position": position,
+            "mode": mode, "healthy_signals": if busy { "busy" } else { "idle" }, "flush_timeout_ms": t.as_millis() as u64, "detail": detail})
+    };
+    let cfgs = configured.iter().map(|s| EndpointCfg { signal: *s, wire: transport.wire(), listen: !(mode == "refuse" && *s == failing), script: vec![] }).collect();
+    let col = Collector::start(cfgs);
+    if let Some(d) = every_attempt {
+        col.set_repeat(failing, Some(d));
+    }
+    let otlp = build_otlp(&col, transport, g.bool(), subset);
+    let pad = "x".repeat(300);
+    let mut sent: Vec<(u64, Signal)> = Vec::new();
+    let mut vid = 7_000_000_000 + case * 1_000;
+    for s in &configured {
+        if *s != failing && !busy {
+            continue;
+        }
+        for _ in 0..(2 + g.usize(6)) {
+            emit_ev(&otlp, &Ev { vid, kind: kind_for(*s), pad: g.usize(300) }, &pad);
+            sent.push((vid, *s));
+            vid += 1;
+        }
+    }
+    let acked_before = |records: &[Record], at: u64| -> BTreeSet<u64> {
+        let mut acked = BTreeSet::new();
+        for rec in records.iter().filter(|rec| rec.acked() && rec.responding.map(|x| x < at).unwrap_or(false)) {
+            if let Ok(items) = rec.items() {
+                acked.extend(items.iter().filter_map(|i| i.vid()));
+            }
+        }
+        acked
+    };
+    // ---- short flushes inside the outage ----
+    for round in 0..2 {
+        let call = stamp();
+        let ok = otlp.blocking_flush(t);
+        let ret = stamp();
+        if !ok {
+            r.observe("outage-flush:short-flush-returned-false(correct)", 1);
+            continue;
+        }
+        r.observe("outage-flush:short-flush-returned-true", 1);
+        col.settle();
+        let records = col.records();
+        // a batch that has used up its retry budget is given up, and flush may then say true (C08's business)
+        let attempts = records.iter().filter(|rec| rec.endpoint == failing).count() + otlp.metric_source().transport_conn_failed();
+        if attempts >= 10 {
+            r.observe("outage-flush:not-judged-failing-batch-given-up", 1);
+            continue;
+        }
+        let acked = acked_before(&records, ret);
+        let missing: Vec<(u64, Signal)> = sent.iter().filter(|(v, _)| !acked.contains(v)).copied().collect();
+        if !missing.is_empty() {
+            let on: BTreeSet<&str> = missing.iter().map(|(_, s)| s.name()).collect();
+            r.violation(
+                &format!("C12:flush-true-with-unacknowledged-events:outage-of={}:configured={}", failing.name(), subset_name(subset)),
+                &format!(
+                    "the {} endpoint ({} of {}) {}, the other signals are {}; blocking_flush({:?}) returned true (stamps {}..{}, call #{}) although {} of the {} events accepted before it are in no acknowledged request (on {:?}); {} attempts seen on the failing endpoint so far",
+                    failing.name(),
+                    position,
+                    subset_name(subset),
+                    match mode {
+                        "refuse" => "refuses connections",
+                        "reject" => "rejects every attempt",
+                        _ => "never answers",
+                    },
+                    if busy { "busy" } else { "idle" },
+                    t,
+                    call,
+                    ret,
+                    round + 1,
+                    missing.len(),
+                    sent.len(),
+                    on,
+                    attempts
+                ),
+                case_json(json!({"missing": missing.iter().take(8).map(|(v, s)| json!([v, s.name()])).collect::<Vec<_>>(), "flush_call": call, "flush_return": ret,
+                    "requests": records.iter().map(|rec| rec.brief()).collect::<Vec<_>>()})),
+            );
+            break;
+        }
+    }
+    r.nontrivial(&("outage-flush", subset, failing, mode, busy, tname));
+    r.observe(&format!("outage-flush:position-{}:{}", position, if busy { "healthy-busy" } else { "healthy-idle" }), 1);
+    // ---- the outage ends: normal delivery ----
+    match mode {
+        "refuse" => col.listen(failing),
+        _ => col.set_repeat(failing, None),
+    }
+    let flushed = otlp.blocking_flush(Duration::from_secs(40));
+    let ret = stamp();
+    if !flushed {
+        r.observe("outage-flush:scenarios-inconclusive", 1);
+        r.inconclusive("outage-flush scenario: blocking_flush returned false (40 s) after the outage had ended");
+        return;
+    }
+    col.settle();
+    let records = col.records();
+    let unacked_on_failing = records.iter().filter(|rec| rec.endpoint == failing && !rec.acked()).count() + otlp.metric_source().transport_conn_failed();
+    r.observe("outage-flush:scenarios-decided", 1);
+    if unacked_on_failing > 9 {
+        // the batch may have been given up during the outage
+        r.observe("outage-flush:final-delivery-not-judged-budget-possibly-exhausted", 1);
+    } else {
+        let acked = acked_before(&records, ret);
+        let missing: Vec<(u64, Signal)> = sent.iter().filter(|(v, _)| !acked.contains(v)).copied().collect();
+        r.observe("outage-flush:vids-accounted", (sent.len() - missing.len()) as u64);
+        if !missing.is_empty() {
+            r.violation(
+                &format!("C12:event-not-acknowledged-at-flush:{}:after-an-outage-of-another-or-the-same-signal", tname),
+                &format!("the outage of {} ended and blocking_flush returned true, but {} of {} events are in no acknowledged request", failing.name(), missing.len(), sent.len()),
+                case_json(json!({"missing": missing.iter().take(8).map(|(v, s)| json!([v, s.name()])).collect::<Vec<_>>(), "requests": records.iter().map(|rec| rec.brief()).collect::<Vec<_>>()})),
+            );
+        }
+    }
+    drop(otlp);
+    drop(col);
+}
+
 /// Run-level judgement of "2xx head, then a graceful close" (see `run`): sent again after every single one.
 fn judge_ack_then_close(r: &mut Report, min_hits: u64) {
     for t in [Transport::HttpJson, Transport::HttpProto] {
@@ -1315,6 +1484,13 @@ fn main() {
         let case = load_replay(path);
         let c = case.get("case").and_then(|v| v.as_u64()).unwrap_or(0);
         let s = case.get("seed").and_then(|v| v.as_u64()).unwrap_or(seed);
+        if case.get("kind").and_then(|v| v.as_str()) == Some("outage-flush") {
+            for i in 0..3 {
+                run_outage_flush(&mut r, s, c, divisor, timeout_ms);
+                r.nontrivial(&("replay-run", i));
+            }
+            std::process::exit(r.finish());
+        }
         if case.get("kind").and_then(|v| v.as_str()) == Some("retry-budget") {
             for i in 0..3 {
                 run_budget(&mut r, s, c, args.thorough());
@@ -1332,7 +1508,7 @@ fn main() {
     }
 
     let section = args.get("section").unwrap_or("all").to_string();
-    let n = if section == "budget" { 0 } else { args.n(210, 8064) };
+    let n = if section == "budget" || section == "outage" { 0 } else { args.n(210, 8064) };
     spread(&mut r, &args, n, |i, r| {
         let sc = generate(seed, i, &opts);
         run(r, &sc);
@@ -1342,8 +1518,12 @@ fn main() {
     // retry-budget sequences (3 transports x 3 layouts x 3 signals for the failing batch, every failure
     // kind for the batch that follows)
     let thorough = args.thorough();
-    let n_budget = if section == "main" { 0 } else { args.n(54, 810) };
+    let n_budget = if section == "main" || section == "outage" { 0 } else { args.n(54, 810) };
     spread(&mut r, &args, n_budget, |i, r| run_budget(r, seed, i, thorough));
+    // a flush over several signals while one of them cannot deliver (9 subset/position pairs x idle/busy per
+    // round of 18; outage mode and transport rotate with the case and the seed)
+    let n_outage = if section == "main" || section == "budget" { 0 } else { args.n(18, 324) };
+    spread(&mut r, &args, n_outage, |i, r| run_outage_flush(r, seed, i, divisor, timeout_ms));
     let inconclusive = r.observed.get("scenarios-inconclusive").copied().unwrap_or(0);
     if inconclusive * 5 > n {
         r.inconclusive(format!("{} of {} scenarios were inconclusive (flush false / watchdog): too many to call the run meaningful", inconclusive, n));
